@@ -10,7 +10,7 @@ ID = 'C04'
 LEVEL = 'exploration'
 RUNS = {'quick': 24000, 'thorough': 400000}
 CHUNK = 100
-PROBES = ['stray_end', 'stray_end_inside_open_window', 'reopened_start', 'crossing_pairs', 'nested_same_thread',
+PROBES = ['record_names_thread_with_open_window', 'stray_end', 'stray_end_inside_open_window', 'reopened_start', 'crossing_pairs', 'nested_same_thread',
           'other_thread_between', 'trace_domain_window', 'trace_record_inside_ordinary_window', 'undecoded_pair',
           'unknown_code', 'all_qualifier', 'fragment_none', 'fault_in_open_window', 'decoder_raised']
 RULE = ('one run = 1..6 thread programs (all decoder families, trace-domain records, known-but-undecoded and unknown '
@@ -78,9 +78,10 @@ def generate(rng, index, tier):
     if not any(mix.values()):
         mix['mach'] = 1
     threads = []
+    tids = [100 + ti * 17 + rng.randrange(0, 9) for ti in range(nthreads)]
     for ti in range(nthreads):
-        tid = 100 + ti * 17 + rng.randrange(0, 9)
-        ctx = worlds.Ctx(ti, tid)
+        tid = tids[ti]
+        ctx = worlds.Ctx(ti, tid, tids)     # records that name a thread may name a live simulated one
         ops = worlds.gen_ops(rng, ctx, rng.randint(1, 7), mix)
         for _ in range(rng.randint(0, 3)):
             pos = rng.randrange(len(ops) + 1)
@@ -176,6 +177,10 @@ def execute(scn):
                 bump('probe:other_thread_between')
         last_th = rec['th']
         threads_seen.add(rec['th'])
+        if name in ('TRACE_DATA_THREAD_TERMINATE', 'TRACE_DATA_NEWTHREAD', 'PERF_THD_Data') and rec['q'] in (0, 3):
+            named = rec['a'][1] if name == 'PERF_THD_Data' else rec['a'][0]
+            if m.open.get(('ord', named)) or m.open.get(('trace', named)):
+                bump('probe:record_names_thread_with_open_window')
         before_open = dict((k, set(v)) for k, v in m.open.items())
         exp = m.feed(i, rec['t'], rec['id'], rec['q'], domain)
         del calls[:]
